@@ -457,7 +457,8 @@ def case_mapping(case):
         if has_prefix:
             cfg["prefix"] = RString(list(pf))
         lg = bharness.make_lang(I, lang, cfg)
-        gens = [RString(list(nm))] if generic_named else ["T"]
+        # two generic parameters, declared in an order that is not sorted (a membership test must not rely on sortedness)
+        gens = [RString(list(nm)), "Aa"] if generic_named else ["T", "A"]
         t = ir.simple(RString(list(nm)))
         if wrap == "vec":
             t = ir.vec(t)
@@ -751,7 +752,7 @@ def native_b(nat, gname, case, v):
     inner = name
     ty = {"plain": "%s", "vec": "Vec<%s>", "option": "Option<%s>", "map_value": "HashMap<String, %s>", "generic_arg": "Wrap<%s>", "vec_option": "Vec<Option<%s>>", "map_key": "HashMap<%s, String>", "vec_map_key": "Vec<HashMap<%s, String>>", "slice": "&[%s]",
           "generic_second_arg": "Wrap<String, %s>"}[wrap] % inner
-    g = "<%s>" % name if generic else "<T>"
+    g = "<%s, Aa>" % name if generic else "<T, A>"
     src = "#[typeshare]\npub type A%s = Vec<%s>;\n" % (g, ty)
     cfg["type_mappings"] = {key: "Mapped"}
     if prefix:
